@@ -23,7 +23,8 @@ from fim.user.network_service import ServiceType, MirrorDirection
 from fim.slivers.attached_components import ComponentType
 from fim.slivers.capacities_labels import Capacities, Labels
 
-NODE_NAMES = ['n1', 'n2', 'n3', 'n9', 'fac1']
+NODE_NAMES = ['n1', 'n2', 'n3', 'n9', 'fac1', 'sw1']
+NN = len(NODE_NAMES)
 COMP_NAMES = ['nic1', 'nic2', 'gpu1', 'cx9', 'nic3', 'fpga1']
 CNODES = ['n1', 'n2', 'n3']
 SVC_NAMES = ['sts1', 'ptp1', 'br1', 'sv9', 'fab1', 'fab2']
@@ -34,9 +35,53 @@ VLANS = ['100', '300', '5000', '']
 LTYPES = [LinkType.L2Path, LinkType.Patch]
 
 
+def _elements(t):
+    """one representative element of every kind (present in skeletons S3 and S4; the last three only in S4)"""
+    pool = list(t.interface_list)
+    p2 = pool[2]
+    subs = list(p2.interface_list)
+    out = [t.nodes['n1'], t.nodes['n1'].components['nic2'], t.network_services['br1'], pool[2], pool[0], subs[0], t.facilities['fac1']]
+    out += [t.links['lan3'] if 'lan3' in t.links else t.nodes['n2'], t.nodes['sw1'] if 'sw1' in t.nodes else t.nodes['n3']]
+    return out
+
+
+# several properties in one call, the bad one first / last / among good ones, None values
+PROP_COMBOS = [lambda: dict(labels=None, capacities='x'), lambda: dict(capacities='x', labels=None),
+               lambda: dict(labels=Labels(vlan='7'), capacities='x'), lambda: dict(capacities=Capacities(bw=1), bogus=1),
+               lambda: dict(bogus=1, capacities=Capacities(bw=1)), lambda: dict(labels=Labels(vlan='7'), capacities=Capacities(bw=1)),
+               lambda: dict(labels=None), lambda: dict(name='zz', capacities='x'), lambda: dict(capacities=Capacities(bw=3), site=5)]
+
+
+NI = 10     # size of the interface pool: the first 9 node interfaces of the skeleton + a stale handle
+NSV = 7     # SVC_NAMES + a stale service handle
+
+
 def node_ifaces(t):
-    """pool of node interfaces in a fixed order (connected and unconnected ones)"""
-    return list(t.interface_list)
+    """pool of node interfaces in a fixed order (connected and unconnected ones), and last a STALE handle: an interface
+    whose component was removed from the model earlier"""
+    pool = list(t.interface_list)[:NI - 1]
+    stale = getattr(t, 'stale_iface', None)
+    return pool + ([stale] if stale is not None else [])
+
+
+def rep_ifaces(t):
+    """representative arguments for an interface list: shared connected / dedicated connected / dedicated with sub-interfaces /
+    dedicated (free in S3, on a 3-ended link in S4) / the last real one / the stale handle / an object that is not an interface"""
+    pool = node_ifaces(t)
+    if not pool:
+        return []
+    real = [i for i in pool if i is not getattr(t, 'stale_iface', None)]
+    return [real[k % len(real)] for k in (0, 1, 2, 5, len(real) - 1)] + [pool[-1], 'not-an-interface']
+
+
+def service(t, k):
+    """service handle by pool index; the last index is a STALE handle (service removed from the model earlier)"""
+    if k % NSV == NSV - 1:
+        st = getattr(t, 'stale_svc', None)
+        if st is None:
+            raise KeyError('no stale service in this skeleton')
+        return st
+    return t.network_services[SVC_NAMES[k % NSV]]
 
 
 class Step:
@@ -55,17 +100,19 @@ SYMBOLIC_OPS = ('add_node', 'add_component', 'add_component_known_model', 'add_f
 
 # which symbolic indices an operation looks at, with their ranges (a, b, c, number of interface picks)
 USES = {
-    'add_node': (5, 3, 3, 0), 'remove_node': (5, 0, 0, 0), 'add_component': (2, 4, 5, 0), 'add_component_known_model': (2, 4, 6, 0),
+    'add_node': (6, 3, 3, 0), 'remove_node': (6, 0, 0, 0), 'add_component': (2, 4, 5, 0), 'add_component_known_model': (2, 4, 6, 0),
     'remove_component': (2, 4, 0, 0), 'add_network_service': (4, 5, 3, 2), 'remove_network_service': (4, 0, 0, 0),
-    'connect_interface': (3, 6, 0, 0), 'disconnect_interface': (3, 6, 0, 0), 'add_facility': (5, 3, 0, 0), 'remove_facility': (5, 0, 0, 0),
-    'add_switch': (5, 3, 3, 0), 'add_child_interface': (6, 2, 4, 0), 'remove_child_interface': (6, 2, 0, 0), 'add_storage': (2, 2, 0, 0),
-    'add_port_mirror_service': (4, 9, 3, 0), 'rename_node': (2, 5, 0, 0), 'set_node_property': (2, 3, 3, 0),
-    'peer': (6, 6, 0, 0), 'unpeer': (6, 6, 0, 0), 'remove_link': (3, 0, 0, 0),
+    'connect_interface': (3, 6, 0, 0), 'disconnect_interface': (3, 6, 0, 0), 'add_facility': (6, 3, 0, 0), 'remove_facility': (6, 0, 0, 0),
+    'add_switch': (6, 3, 3, 0), 'add_child_interface': (6, 2, 4, 0), 'remove_child_interface': (6, 2, 0, 0), 'add_storage': (2, 4, 0, 0),
+    'add_port_mirror_service': (4, NI, 3, 0), 'rename_node': (2, 6, 0, 0), 'set_node_property': (2, 3, 3, 0),
+    'peer': (NSV, NSV, 0, 0), 'unpeer': (NSV, NSV, 0, 0), 'remove_link': (3, 0, 0, 0),
+    'set_properties': (9, 9, 0, 0), 'unset_property': (9, 6, 0, 0),
+    'add_link': (2, 2, 2, 3), 'remove_switch': (6, 0, 0, 0), 'remove_storage': (3, 3, 0, 0),
 }
 USES.update({'add_component': (3, 6, 5, 0), 'add_component_known_model': (2, 3, 6, 1), 'remove_component': (3, 6, 0, 0),
-             'add_network_service': (3, 5, 3, 2), 'remove_network_service': (6, 0, 0, 0), 'connect_interface': (3, 9, 0, 0),
-             'disconnect_interface': (3, 9, 0, 0), 'add_child_interface': (9, 2, 4, 0), 'remove_child_interface': (9, 2, 0, 0),
-             'add_facility': (5, 3, 2, 0)})
+             'add_network_service': (3, 5, 3, 2), 'remove_network_service': (6, 0, 0, 0), 'connect_interface': (3, NI, 0, 0),
+             'disconnect_interface': (3, NI, 0, 0), 'add_child_interface': (NI, 2, 4, 0), 'remove_child_interface': (NI, 2, 0, 0),
+             'add_facility': (6, 3, 5, 0), 'add_switch': (6, 3, 6, 0)})
 MODEL_POOL = ['ConnectX-6', 'nope', 'RTX6000', 'P4510', 'ConnectX-5']
 
 
@@ -80,8 +127,8 @@ def do_step(t, op, a, b, c, n, m, picks, symbolic_values, uses=None):
     a = _concretize(a, ua) if ua else 0
     b = _concretize(b, ub) if ub else 0
     c = _concretize(c, uc) if uc else 0
-    npick = (c % 4) if op == 'add_network_service' else up
-    picks = [_concretize(picks[i], 5 if op == 'add_network_service' else 9) if i < npick else 0 for i in range(len(picks))]
+    npick = (c % 4) if op == 'add_network_service' else (2 + c % 2 if op == 'add_link' else up)
+    picks = [_concretize(picks[i], 7 if op in ('add_network_service', 'add_link') else 9) if i < npick else 0 for i in range(len(picks))]
     return untraced(_do_step, t, op, a, b, c, 2, MODEL_POOL[c % 5] if op == 'add_component' else 'x', picks)
 
 
@@ -97,9 +144,9 @@ def _do_step(t, op, a, b, c, n, m, picks):
     st = Step()
     try:
         if op == 'add_node':
-            t.add_node(name=NODE_NAMES[a], site=SITES[b % 3], ntype=NTYPES[c % 3], capacities=Capacities(core=n, ram=n))
+            t.add_node(name=NODE_NAMES[a % NN], site=SITES[b % 3], ntype=NTYPES[c % 3], capacities=Capacities(core=n, ram=n))
         elif op == 'remove_node':
-            nm = NODE_NAMES[a]
+            nm = NODE_NAMES[a % NN]
             if nm in t.nodes:
                 st.gone_root = t.nodes[nm].node_id
             t.remove_node(nm)
@@ -119,10 +166,8 @@ def _do_step(t, op, a, b, c, n, m, picks):
                 st.gone_root = node.components[cn].node_id
             node.remove_component(cn)
         elif op == 'add_network_service':
-            pool = node_ifaces(t)
-            # representative interfaces: shared connected / dedicated connected / dedicated with sub-interfaces / dedicated free / last one
-            rep = [pool[k % len(pool)] for k in (0, 1, 2, 5, len(pool) - 1)] if pool else []
-            ifs = [rep[p % 5] for p in picks[:(c % 4)]] if pool else []
+            rep = rep_ifaces(t)
+            ifs = [rep[p % 7] for p in picks[:(c % 4)]] if rep else []
             t.add_network_service(name=['sts1', 'sv9', 'fab1'][a % 3], nstype=STYPES[b % 5], interfaces=ifs, capacities=Capacities(bw=10))
         elif op == 'remove_network_service':
             nm = SVC_NAMES[a % 6]
@@ -145,16 +190,21 @@ def _do_step(t, op, a, b, c, n, m, picks):
             svc.disconnect_interface(i)
             st.handle, st.handle_fresh = svc, ('svc', svc.name)
         elif op == 'add_facility':
-            kw = [{'capacities': Capacities(bw=n)}, {'capacities': Capacities(bw=n), 'bogus_property': 1}][c % 2]
-            t.add_facility(name=NODE_NAMES[a], site=SITES[b % 3], **kw)
+            kw = [{'capacities': Capacities(bw=n)}, {'capacities': Capacities(bw=n), 'bogus_property': 1},
+                  # several interfaces: the same name twice / distinct names / the second one with a bad value
+                  {'interfaces': [('fa', Labels(vlan='1'), Capacities(bw=n)), ('fa', Labels(vlan='2'), Capacities(bw=n))]},
+                  {'interfaces': [('fa', Labels(vlan='1'), Capacities(bw=n)), ('fb', Labels(vlan='2'), Capacities(bw=n))]},
+                  {'interfaces': [('fa', Labels(vlan='1'), Capacities(bw=n)), ('fb', 'not-labels', Capacities(bw=n))]}][c % 5]
+            t.add_facility(name=NODE_NAMES[a % NN], site=SITES[b % 3], **kw)
         elif op == 'remove_facility':
-            nm = NODE_NAMES[a]
+            nm = NODE_NAMES[a % NN]
             facs = t.facilities
             if facs and nm in facs:
                 st.gone_root = facs[nm].node_id
             t.remove_facility(name=nm)
         elif op == 'add_switch':
-            t.add_switch(name=NODE_NAMES[a], site=SITES[b % 3], nports=c % 3)
+            kw = {'portcapacities': 'not-capacities'} if c % 6 >= 3 else {}     # a port property that is refused after node and service exist
+            t.add_switch(name=NODE_NAMES[a % NN], site=SITES[b % 3], nports=c % 3, **kw)
         elif op == 'add_child_interface':
             pool = node_ifaces(t)
             par = pool[a % len(pool)]
@@ -170,19 +220,19 @@ def _do_step(t, op, a, b, c, n, m, picks):
             par.remove_child_interface(name=nm)
             st.handle, st.handle_fresh = par, ('iface', par.node_id)
         elif op == 'add_storage':
-            t.nodes[['n1', 'n3'][a % 2]].add_storage(name=['vol1', 'vol9'][b % 2], labels=Labels(local_name='x'))
+            t.nodes[['n1', 'n3'][a % 2]].add_storage(name=['vol1', 'vol9', 'nic1', 'fpga1'][b % 4], labels=Labels(local_name='x'))
         elif op == 'add_port_mirror_service':
             pool = node_ifaces(t)
             t.add_port_mirror_service(name=SVC_NAMES[a % 4], from_interface_name='p1', to_interface=pool[b % len(pool)],
                                       direction=list(MirrorDirection)[c % len(list(MirrorDirection))])
         elif op == 'peer':
-            if a % 6 == b % 6:
+            if a % NSV == b % NSV:
                 return st       # peering a service with itself is not a meaningful call
-            sa, sb = t.network_services[SVC_NAMES[a % 6]], t.network_services[SVC_NAMES[b % 6]]
+            sa, sb = service(t, a), service(t, b)
             sa.peer(sb)
             st.handle, st.handle_fresh = sa, ('svc', sa.name)
         elif op == 'unpeer':
-            sa, sb = t.network_services[SVC_NAMES[a % 6]], t.network_services[SVC_NAMES[b % 6]]
+            sa, sb = service(t, a), service(t, b)
             st.unpeer = (sa.node_id, sb.node_id)
             sa.unpeer(sb)
             st.handle, st.handle_fresh = sb, ('svc', sb.name)
@@ -191,8 +241,29 @@ def _do_step(t, op, a, b, c, n, m, picks):
             if nm in t.links:
                 st.gone_root = t.links[nm].node_id
             t.remove_link(nm)
+        elif op == 'add_link':
+            rep = rep_ifaces(t)
+            ifs = [rep[p % 7] for p in picks[:2 + (c % 2)]] if rep else []
+            t.add_link(name=['lan3', 'lan9'][a % 2], ltype=LTYPES[b % 2], interfaces=ifs)
+        elif op == 'remove_switch':
+            nm = NODE_NAMES[a % NN]
+            if nm in t.nodes and t.nodes[nm].type == NodeType.Switch:
+                st.gone_root = t.nodes[nm].node_id
+            t.remove_switch(name=nm)
+        elif op == 'remove_storage':
+            node = t.nodes[CNODES[a % 3]]
+            cn = ['vol1', 'vol9', 'nic1'][b % 3]
+            if cn in node.components:
+                st.gone_root = node.components[cn].node_id
+            node.remove_storage(cn)
+        elif op == 'set_properties':
+            e = _elements(t)[a % 9]
+            e.set_properties(**PROP_COMBOS[b % len(PROP_COMBOS)]())
+        elif op == 'unset_property':
+            e = _elements(t)[a % 9]
+            e.unset_property(['labels', 'capacities', 'site', 'name', 'type', 'bogus'][b % 6])
         elif op == 'rename_node':
-            t.nodes[['n1', 'n2'][a % 2]].rename(NODE_NAMES[b % 5])
+            t.nodes[['n1', 'n2'][a % 2]].rename(NODE_NAMES[b % NN])
         elif op == 'set_node_property':
             node = t.nodes[['n1', 'n2'][a % 2]]
             if b % 3 == 0:
@@ -209,9 +280,9 @@ def _do_step(t, op, a, b, c, n, m, picks):
     return st
 
 
-ADD_OPS = ['peer', 'add_node', 'add_component', 'add_component_known_model', 'add_network_service', 'connect_interface', 'add_facility', 'add_switch',
+ADD_OPS = ['set_properties', 'unset_property', 'add_link', 'peer', 'add_node', 'add_component', 'add_component_known_model', 'add_network_service', 'connect_interface', 'add_facility', 'add_switch',
            'add_child_interface', 'add_storage', 'add_port_mirror_service', 'rename_node', 'set_node_property']
-REMOVE_OPS = ['unpeer', 'remove_link', 'remove_node', 'remove_component', 'remove_network_service', 'disconnect_interface', 'remove_facility',
+REMOVE_OPS = ['remove_switch', 'remove_storage', 'unpeer', 'remove_link', 'remove_node', 'remove_component', 'remove_network_service', 'disconnect_interface', 'remove_facility',
               'remove_child_interface']
 ALL_OPS = ADD_OPS + REMOVE_OPS
 
@@ -273,7 +344,7 @@ def handle_consistent(t, st):
 def mk(prop, kind, op, small=False):
     def h_step(a: int, b: int, c: int, n: int, m: str, p0: int, p1: int, p2: int) -> bool:
         """
-        pre: 0 <= a < 9 and 0 <= b < 9 and 0 <= c < 6 and n >= 0 and len(m) <= 3
+        pre: 0 <= a < 12 and 0 <= b < 12 and 0 <= c < 6 and n >= 0 and len(m) <= 3
         pre: 0 <= p0 < 9 and 0 <= p1 < 9 and 0 <= p2 < 9
         post: R(_)
         """
@@ -282,6 +353,12 @@ def mk(prop, kind, op, small=False):
         pre = untraced(snap, t)
         if small and op == 'add_network_service':
             c = c % 2        # quick tier: at most one interface handed to the new service
+        if small and op == 'add_link':
+            c = 0            # quick tier: two interfaces handed to the new link
+        if small and prop == 'C09' and op == 'add_component':
+            a, b = a % 2, b % 3          # quick tier: two nodes, three names (taken on both / taken on one / ...), every component type
+        if small and prop == 'C09' and op == 'add_component_known_model':
+            b = b % 2                    # quick tier: a taken and a free name
         st = do_step(t, op, a, b, c, n, m, [p0, p1, p2], prop == 'C09')
         post = untraced(snap, t)
 
@@ -309,7 +386,7 @@ USES2 = {
     'add_node': (3, 1, 2, 0), 'remove_node': (3, 0, 0, 0), 'add_component_known_model': (2, 2, 3, 1), 'remove_component': (2, 3, 0, 0),
     'add_network_service': (2, 3, 2, 1), 'remove_network_service': (3, 0, 0, 0), 'connect_interface': (2, 4, 0, 0),
     'disconnect_interface': (2, 4, 0, 0), 'add_child_interface': (3, 2, 2, 0), 'remove_child_interface': (3, 2, 0, 0),
-    'add_facility': (5, 1, 2, 0), 'remove_facility': (5, 0, 0, 0),
+    'add_facility': (6, 1, 2, 0), 'remove_facility': (6, 0, 0, 0),
 }
 OPS2_FIRST = ['add_node', 'add_component_known_model', 'add_network_service', 'connect_interface', 'disconnect_interface',
               'remove_node', 'remove_component', 'remove_network_service', 'add_child_interface']
